@@ -288,7 +288,7 @@ def run(ctx):
         raise Broken("case generation produced %d groups" % len(raw))
 
     # flow items: filter-tree level for all; loaded-engine level for a seeded subset (an engine build costs ~10 ms)
-    eng_frac = 0.25 if not T else 0.12
+    eng_frac = 0.25 if not T else 0.5
     groups = groups_of_case_files(raw, lambda g: ["flow"] + (["engine"] if ctx.rng.random() < eng_frac else []))
     ncases = sum(len(g["reqs"]) for g in groups)
     ctx.log("generated %d item groups -> %d executor groups, %d cases (%d at engine level)" % (
@@ -335,7 +335,7 @@ def run(ctx):
     ctx.log("trace validation: %d real verdict pairs of generated cases accepted" % n1)
 
     # (4) code -> spec: seeded random configurations with several items and many special characters
-    ng, nreq = (90, 16) if not T else (900, 20)
+    ng, nreq = (90, 16) if not T else (2500, 20)
     rgroups = [rand_group(ctx.rng, ctx.rng.choice(["policy", "flow", "flow", "engine"]), nreq) for _ in range(ng)]
     rreals = execute(ctx, binary, rgroups, "rand")
     rblocks, rkinds, nerr = [], [], 0
@@ -373,7 +373,7 @@ def selftest(ctx, blocks):
     bad = json.loads(json.dumps(b))
     bad[i]["proxy"] = False
     tests.append(("proxy verdict flipped to unmanaged", bad))
-    b2, i2 = find(lambda b, e: not e["engine"] and not e["proxy"] and not b[0]["manage_all"])
+    b2, i2 = find(lambda b, e: not e["engine"] and not e["proxy"] and not b[0]["manage_all"] and not e["ts"])
     bad = json.loads(json.dumps(b2))
     bad[i2]["engine"] = [bad[0]["items"][0]["name"]]
     tests.append(("engine verdict flipped to matched", bad))
@@ -381,7 +381,16 @@ def selftest(ctx, blocks):
         _, rej, _ = tlc_validate(ctx, [blk], "selftest", strict=False)
         if not rej:
             raise Broken("self-test: corrupted recording accepted (%s)" % name)
-    # dropping the group event: the requests are then judged against the previous configuration's items
+    # Literal alone: a request that spells the configured URL (no wildcard, engine matched it, no trailing slash),
+    # recorded as "engine did not match, proxy did not manage" - NoBypass is then vacuous, Literal must reject it
+    b3, i3 = find(lambda b, e: len(b[0]["items"]) == 1 and (not b[0]["items"][0]["p"] or b[0]["items"][0]["p"][-1] != "*")
+                  and e["engine"] and e["proxy"] and not e["ts"] and not b[0]["manage_all"])
+    bad = json.loads(json.dumps(b3))
+    bad[i3]["engine"], bad[i3]["proxy"] = [], False
+    _, rej, _ = tlc_validate(ctx, [bad], "selftest", strict=False)
+    if not rej:
+        raise Broken("self-test: literal spelling recorded as unmanaged was accepted")
+    tests.append(("literally spelled request recorded as unmanaged", bad))
     ctx.notes.append("self-test: %d corrupted recordings rejected (%s)" % (len(tests), ", ".join(n for n, _ in tests)))
 
 
